@@ -1115,16 +1115,14 @@ mutant("c15-volatile-branches-swapped", "C15", "C15-D3", "client_socket.go",
 mutant("c15-flush-without-clear", "C15", "C15-D3", "client_socket.go",
        "		s.manager.packet(packets...)\n		s.sendBuffer = nil\n", "		s.manager.packet(packets...)\n")
 mutant("c15-early-return-in-replay", "C15", "C15-D3", "client_socket.go",
-       """			if ok && sent {
-				mu.Unlock()
-				continue
-			}
-			ackIDs[*event.header.ID] = true""",
-       """			if ok && sent {
-				mu.Unlock()
-				return
-			}
-			ackIDs[*event.header.ID] = true""")
+       """		s.callEvent(event.handler, event.header, event.values, sendAck)
+	}
+	s.receiveBuffer = nil""",
+       """		if s.callEvent(event.handler, event.header, event.values, sendAck) {
+			return
+		}
+	}
+	s.receiveBuffer = nil""")
 mutant("c15-failed-off-by-one", "C15", "C15-D2", "client_manager_conn.go",
        "	didAttemptsReachedMaxAttempts := m.reconnectionAttempts > 0 && attempts >= m.reconnectionAttempts", "	didAttemptsReachedMaxAttempts := m.reconnectionAttempts > 0 && attempts > m.reconnectionAttempts")
 mutant("c15-no-reset-on-give-up", "C15", "C15-D2", "client_manager_conn.go",
@@ -2356,3 +2354,28 @@ mutant("c06-f46-parse-error-leaves-connection-open", "C06", "C06-D11", "client_m
 						eio.Close()
 					}
 """, "					_ = eio\n")
+
+# F47 – F52 (reverting the repairs)
+mutant("c18-f47-created-namespace-not-announced", "C18", "C18-D11", "server_conn.go",
+       """		nsp, created = c.server.namespaces.getOrCreate(""", """		nsp, _ = c.server.namespaces.getOrCreate(""")
+MUTANTS[-1]["then"] = ("""		if created && nsp.Name() != "/" {""", """		if created = false; created {""")
+mutant("c09-f48-empty-position-parsed-as-placeholder", "C09", "C09-D15", "parser/json/binary.go",
+       """			if len(pBuf) == 0 {
+				return nil
+			}
+""", "")
+mutant("c11-f49-upgrades-null", "C11", "C11-D8", "engine.io/server.go",
+       """	if upgrades == nil {
+		// `upgrades` is an array in the protocol. A nil slice would be encoded as null.
+		upgrades = []string{}
+	}
+""", "")
+mutant("c17-f50-http3-skips-version-check", "C17", "C17-D1", "engine.io/server.go",
+       "	if !isWebTransportRequest(r) {\n		version, err", "	if r.ProtoMajor != 3 {\n		version, err")
+mutant("c15-f51-connect-error-leaves-pending", "C15", "C15-D8", "client_socket.go",
+       """	if s.state == clientSocketConnStateConnectPending {
+		s.state = clientSocketConnStateDisconnected
+	}
+""", "")
+mutant("c16-f52-callers-transports-rearranged", "C16", "C16-D6", "engine.io/client.go",
+       "		transports = slices.Clone(config.Transports)", "		transports = slices.Clip(config.Transports)")
